@@ -3,7 +3,7 @@
 From Coq Require Import List NArith Bool Permutation.
 From SV Require Import Fmt.VpkDir Fmt.VpkDirProofs Fmt.VpkName Fmt.VpkNameSplit Fmt.VpkNameProofs SM.Vpk SM.VpkProofs.
 From SV Require Import Fmt.VpkArchName Fmt.VpkArchNameProofs SM.VpkRefine Fmt.VpkDirV2.
-From SV Require Import Fmt.VpkNullStr Fmt.VpkNullStrProofs SM.VpkNested SM.VpkNestedProofs.
+From SV Require Import Fmt.VpkNullStr Fmt.VpkNullStrProofs SM.VpkNested SM.VpkNestedProofs SM.VpkApi SM.VpkApiProofs.
 Import ListNotations.
 Open Scope N_scope.
 
@@ -270,3 +270,49 @@ Theorem c13_nested_delete_wrong_test_refuted :
   /\ adel ([116], [97], [120]) (flat_tree ex_tree) = [(([116], [98], [121]), ex_info)]
   /\ option_map (@flat_tree) (ndel del_prog_pinned ex_tree ([116], [97], [120])) = Some [(([116], [98], [121]), ex_info)].
 Proof. exact del_prog_c13_3_refuted. Qed.
+
+(** ---- the API around the state machine: with-blocks, load_dirfile() on the same object (SM/VpkApi.v; Gen/VpkApi_gen.v g_exit_table) ---- *)
+
+(** The whole-history statement over the extended operations.  For every table of what VPK.__exit__ does that is accepted by
+    [exit_table_ok] (complete enumeration of "exception in flight or not" x "mode writable or not": write_dirfile() is called once when
+    there is no exception and the mode is writable, never otherwise, and the exception is not swallowed; instance obligation on the
+    table computed from the source), every sequence of the six operations, leaving a with-block normally or by an exception, and
+    load_dirfile() called again on the same object, refines the specification map exactly as in c13_vpk_refines_map.
+    [xrun] is [None] also when such a load_dirfile() fails half-way (it leaves the object emptied, which the model does not follow). *)
+Theorem c13_api_refines_map : forall et crc cf, exit_table_ok et = true -> vcfg_ok cf = true -> forall xs st codes,
+  collision_free crc (xplain xs) ->
+  xrun et crc cf init xs = Some (st, codes) ->
+  let '(s, scodes) := sxrun cf sinit xs in
+  codes = scodes /\ md st = smd s /\ Permutation (map fst (tbl st)) (map fst (cur s)) /\
+  forall k, match alookup k (tbl st), alookup k (cur s) with
+            | Some i, Some d => read_info st i = d /\ verify_info crc st i = true
+            | None, None => True
+            | _, _ => False
+            end.
+Proof. exact vpk_api_refines_map. Qed.
+
+(** `with VPK(path, mode='w'|'a') as v: ...` left normally, then the archive opened again for reading or appending: it lists exactly
+    the files that should exist, each reading back the bytes last written to it and verifying. *)
+Theorem c13_with_block_saves : forall et crc cf, exit_table_ok et = true -> vcfg_ok cf = true -> forall xs m st codes,
+  m <> MW -> collision_free crc (xplain xs) ->
+  xrun et crc cf init (xs ++ [XExit true; XOp (OReopen m)]) = Some (st, codes) ->
+  let '(s0, c0) := sxrun cf sinit xs in
+  writable (smd s0) = true ->
+  codes = c0 ++ [rOk; rOk] /\ md st = m /\ Permutation (map fst (tbl st)) (map fst (cur s0)) /\
+  forall k, match alookup k (tbl st), alookup k (cur s0) with
+            | Some i, Some d => read_info st i = d /\ verify_info crc st i = true
+            | None, None => True
+            | _, _ => False
+            end.
+Proof. exact vpk_with_block_saves. Qed.
+
+(** A block left by an exception writes nothing. *)
+Theorem c13_with_block_exception_writes_nothing : forall et crc cf st, exit_table_ok et = true ->
+  xstep et crc cf st (XExit false) = Some (st, rOk).
+Proof. exact vpk_with_block_exception. Qed.
+
+(** The pinned __exit__ is accepted; saving also while an exception is in flight, or never saving, is not. *)
+Theorem c13_exit_tables_computed :
+  exit_table_ok exit_table_pinned = true /\ exit_table_ok exit_table_always = false /\ exit_table_ok exit_table_never = false
+  /\ mode_table_ok false true true = true.
+Proof. exact exit_tables_computed. Qed.
